@@ -108,6 +108,10 @@ class Gateway:
 
         value = str(value)
 
+        if ";" in value:
+            # The field delimiter can not be carried in a payload.
+            raise ValueError(f"Invalid value provided, it contains ';': {value}")
+
         msg = Message(
             node_id=sensor.sensor_id,
             child_id=child_id,
